@@ -89,7 +89,7 @@ pub fn run(case: &StreamCase) -> StreamOutcome {
     let (resp, writer) = match built {
         Ok(x) => x,
         Err(_) => {
-            return StreamOutcome { input: input_val(case, &[]), obs: Val::L(vec![Val::bytes(b"PANIC")]) };
+            return StreamOutcome { input: input_val(case, &[], vec![]), obs: Val::L(vec![Val::bytes(b"PANIC")]) };
         }
     };
     let (parts, body) = resp.into_parts();
@@ -110,6 +110,21 @@ pub fn run(case: &StreamCase) -> StreamOutcome {
         }
     };
     let (h0, e0) = sample(&body);
+
+    // A shadow gzip encoder (the same flate2 construction over a Vec): what GzEncoder hands to its sink, call
+    // by call, for the same calls. The extracted model of BodyWriter(Gzipped) (Model/GzWriter.v, which is
+    // stated over an abstract encoder) is run with exactly these emissions and must then reproduce every
+    // result and every frame of the real body.
+    let is_gzip = hdrs.iter().any(|(k, v)| k == b"content-encoding" && v == b"gzip");
+    let mut shadow: Option<(flate2::write::GzEncoder<Vec<u8>>, usize)> =
+        if is_gzip && has_writer { Some((flate2::write::GzEncoder::new(Vec::new(), flate2::Compression::new(case.gz_level)), 0)) } else { None };
+    let mut script: Vec<Val> = vec![];
+    fn emitted(sh: &mut (flate2::write::GzEncoder<Vec<u8>>, usize)) -> Vec<u8> {
+        let v = sh.0.get_ref();
+        let out = v[sh.1..].to_vec();
+        sh.1 = v.len();
+        out
+    }
 
     let mut queue: std::collections::VecDeque<Op> = case.ops.iter().cloned().collect();
     let mut guard = 0;
@@ -204,6 +219,73 @@ pub fn run(case: &StreamCase) -> StreamOutcome {
                 requeue_drain = Some(*w);
             }
         }
+        if is_gzip && has_writer {
+            let failed = |rv: &Val| matches!(rv, Val::L(l) if l.len() == 1 && (l[0] == Val::N(1) || l[0] == Val::N(3)));
+            let one_write = |shadow: &mut Option<(flate2::write::GzEncoder<Vec<u8>>, usize)>, d: &[u8]| -> Val {
+                match shadow.as_mut() {
+                    Some(sh) => {
+                        let n = sh.0.write(d).unwrap_or(0);
+                        Val::L(vec![Val::N(0), Val::N(n as u64), Val::B(emitted(sh))])
+                    }
+                    None => Val::L(vec![Val::N(0), Val::N(0), Val::B(vec![])]),
+                }
+            };
+            let entry = match &op_exec {
+                Op::Write(d) => one_write(&mut shadow, d),
+                Op::WriteV(ds) => {
+                    let first = ds.iter().find(|d| !d.is_empty()).cloned().unwrap_or_default();
+                    one_write(&mut shadow, &first)
+                }
+                Op::WriteAll(d) => {
+                    let mut calls = vec![];
+                    if let Some(sh) = shadow.as_mut() {
+                        let mut rest: &[u8] = d;
+                        while !rest.is_empty() {
+                            let n = sh.0.write(rest).unwrap_or(0);
+                            calls.push(Val::L(vec![Val::N(n as u64), Val::B(emitted(sh))]));
+                            if n == 0 {
+                                break;
+                            }
+                            rest = &rest[n..];
+                        }
+                    }
+                    Val::L(vec![Val::N(1), Val::L(calls), Val::N(d.len() as u64)])
+                }
+                Op::Flush => match shadow.as_mut() {
+                    Some(sh) => {
+                        let _ = sh.0.flush();
+                        let e1 = emitted(sh);
+                        let _ = sh.0.flush();
+                        let e2 = emitted(sh);
+                        Val::L(vec![Val::N(2), Val::B(e1), Val::B(e2)])
+                    }
+                    None => Val::L(vec![Val::N(2), Val::B(vec![]), Val::B(vec![])]),
+                },
+                Op::DropWriter => {
+                    let e = match shadow.as_mut() {
+                        Some(sh) => {
+                            let _ = sh.0.try_finish();
+                            emitted(sh)
+                        }
+                        None => vec![],
+                    };
+                    shadow = None;
+                    Val::L(vec![Val::N(4), Val::B(e)])
+                }
+                Op::Abort => {
+                    shadow = None;
+                    Val::L(vec![Val::N(3)])
+                }
+                Op::Poll(w) => Val::L(vec![Val::N(5), Val::N(*w)]),
+                Op::DropReader => Val::L(vec![Val::N(6)]),
+                Op::Drain(_) => unreachable!(),
+            };
+            // a failed write or flush kills the BodyWriter: its encoder is gone
+            if matches!(op_exec, Op::Write(_) | Op::WriteV(_) | Op::WriteAll(_) | Op::Flush) && failed(&rv) {
+                shadow = None;
+            }
+            script.push(entry);
+        }
         let woken: Vec<Val> = log.lock().unwrap().iter().map(|w| Val::N(*w)).collect();
         let (h, e) = sample(&body);
         results.push(Val::L(vec![rv.clone(), Val::L(woken), h, e]));
@@ -222,7 +304,7 @@ pub fn run(case: &StreamCase) -> StreamOutcome {
         e0,
         Val::L(results),
     ]);
-    StreamOutcome { input: input_val(case, &executed), obs }
+    StreamOutcome { input: input_val(case, &executed, script), obs }
 }
 
 fn op_val(o: &Op) -> Val {
@@ -239,7 +321,7 @@ fn op_val(o: &Op) -> Val {
     }
 }
 
-fn input_val(case: &StreamCase, executed: &[Op]) -> Val {
+fn input_val(case: &StreamCase, executed: &[Op], script: Vec<Val>) -> Val {
     Val::L(vec![
         Val::N(case.cap as u64),
         Val::N(case.gz_level as u64),
@@ -251,6 +333,8 @@ fn input_val(case: &StreamCase, executed: &[Op]) -> Val {
         // the function itself is C16's subject): 0 false, 1 true, 2 panic
         Val::N(crate::negot::run_should_gzip(&case.accept_encoding)),
         Val::L(case.pre_calls.iter().map(|(k, x)| Val::L(vec![Val::N(*k), Val::N(*x)])).collect()),
+        // gzip bodies: what the encoder handed to its sink, call by call (see `shadow` above)
+        Val::L(script),
     ])
 }
 
